@@ -90,16 +90,22 @@ def c10b(tree, ob):
     ext = [d for d in defs if d[0] is not b[0]]
     e = one(ext, 'fragment extension of the identity', ob)
     st = e[0]
-    okext = isinstance(st, ast.AugAssign) and isinstance(st.op, ast.Add) and isinstance(st.value, ast.List) and \
-        [src(fv.value_at(x, st)) for x in st.value.elts] in ([p + '.fragment_offset', p + '.total_app_data_len'] for p in prim)
+    vals = [src(fv.value_at(x, st)) for x in st.value.elts] if isinstance(st, ast.AugAssign) and isinstance(st.op, ast.Add) and isinstance(st.value, ast.List) else []
+    okext = vals[:2] in ([p + '.fragment_offset', p + '.total_app_data_len'] for p in prim)
+    # ... and by the extent of the fragment itself: two fragments at one offset may differ in length, and the shorter one
+    # must not make the longer one a duplicate (the set then reassembles in some arrival orders only)
+    oklen = len(vals) == 3 and vals[2].startswith('len(') and 'btsd' in vals[2] and 'BLOCK_NUM_PAYLOAD' in vals[2]
     facts = fv.facts(st) or frozenset()
     guarded = any(p and t.endswith('.bundle_flags & PrimaryBlock.Flag.IS_FRAGMENT') for (t, p) in facts)
     if not okext:
         ob.violate(UTIL, fv.qual, src(st), 'fragment identity is not extended by (fragment offset, total length)', st)
+    elif not oklen:
+        ob.violate(UTIL, fv.qual, src(st), 'the identity of a fragment lacks its own payload length: a longer fragment at an offset already seen is dropped as a duplicate, so a covering set of '
+                   'fragments reassembles only in some arrival orders', st)
     elif not guarded:
         ob.violate(UTIL, fv.qual, src(st), 'fragment fields are part of the identity of non-fragments too', st)
     else:
-        ob.site(UTIL, st, 'fragments add (offset, total length)')
+        ob.site(UTIL, st, 'fragments add (offset, total length, own payload length)')
 
 
 def c10c(tree, ob):
@@ -237,5 +243,14 @@ def c10e(tree, ob):
                     continue
                 if (rel, qual) in allowed or (rel, qual, kind) in allowed:
                     ob.site(rel, node, 'sanctioned edit of actions in ' + qual)
+                elif kind == 'pop' and len(node.args) == 2 and const_str(node.args[0]) in ('deliver', 'forward') and \
+                        enclosing(node, (ast.ExceptHandler,)) is not None and \
+                        any(c.args and const_str(c.args[0]) == 'delete' for c in method_calls(enclosing(node, (ast.ExceptHandler,)), 'record_action')):
+                    # a routing decision that was not carried out is withdrawn where the failure is recorded
+                    ob.site(rel, node, 'decision withdrawn in the failure arm that records delete ({})'.format(qual))
+                elif kind == 'init' and isinstance(node.value, ast.Call) and dotted(node.value.func) == 'dict' and len(node.value.args) == 1 and \
+                        (dotted(node.value.args[0]) or '').endswith('.actions'):
+                    # a container derived from another one (a fragment) inherits a copy of its record
+                    ob.site(rel, node, 'derived container inherits a copy of the record ({})'.format(qual))
                 else:
                     ob.violate(rel, qual, src(node)[:80], 'the per-bundle action record is edited outside record_action', node)
